@@ -17,6 +17,7 @@ from checks import CHECKS  # noqa: E402
 import shrink as shrinker  # noqa: E402
 
 TMP = os.path.join(VERIF, 'build', 'tmp')
+HANG_FACTOR = 4
 
 
 def log(*a):
@@ -89,6 +90,33 @@ def first_lib_frame(lines, start):
     return fallback or '?'
 
 
+def recursion_frame(lines, start):
+    """for a stack overflow: the library function that occurs most often in
+    the reported stack (the recursion), which - unlike the innermost frame, an
+    accident of where the stack happened to run out - names the defect"""
+    count, order = {}, []
+    for ln in lines[start:]:
+        m = FRAME.match(ln)
+        if not m:
+            if order and ln.strip() == '':
+                break
+            continue
+        path = m.group(3)
+        if '/symengine/' not in path or '/verif/' in path:
+            continue
+        if path.endswith('symengine_rcp.h') or path.endswith('/basic-inl.h'):
+            continue
+        name = short_fn(m.group(2))
+        if name not in count:
+            count[name] = 0
+            order.append(name)
+        count[name] += 1
+    if not order:
+        return None
+    best = max(order, key=lambda n: count[n])
+    return best if count[best] >= 8 else None
+
+
 def classify_death(returncode, stderr_text, timed_out=False):
     if timed_out:
         return 'hang', 'run exceeded the watchdog'
@@ -105,6 +133,10 @@ def classify_death(returncode, stderr_text, timed_out=False):
                 kind = kind.lower()
             elif kind in ('attempting', 'attempting-double-free'):
                 kind = 'bad-free'
+            if kind == 'stack-overflow':
+                rec = recursion_frame(lines, i)
+                if rec:
+                    return 'asan:stack-overflow:recursion=%s' % rec, '\n'.join(lines[i:i + 24])
             acc = ''
             for l2 in lines[i + 1:i + 3]:
                 if l2.startswith('READ'):
@@ -430,8 +462,24 @@ def match_known(known, sig):
 def process_violation(cfg, prop, tier, seed, run, v, binary):
     """gate, minimise, write replay. returns (status, sig, replay_path|None, info)"""
     plan = gen_plan(cfg, tier, seed, run)
-    a = exec_plan(cfg, plan, binary)
+    # A watchdog kill inside a loaded 16-worker batch only says 'slow here'.
+    # It counts as a hang if the run, alone in a fresh process, is still not
+    # done after HANG_FACTOR times the watchdog period; a run that completes
+    # then is a slow run, which is reported as a note and not as a violation.
+    long_timeout = HANG_FACTOR * cfg.get('exec_timeout', 120)
+    a = exec_plan(cfg, plan, binary, timeout=long_timeout if v.get('sig') == 'hang' else None)
+    if v.get('sig') == 'hang' and not a['sig']:
+        return ('slow', 'hang', None, 'run %d was stopped by the watchdog inside the batch but completes '
+                'when run alone (limit %ds): slow, not hung' % (run, long_timeout))
     b = exec_plan(cfg, plan, binary)
+    if a['sig'] == 'hang' and b['sig'] == 'hang' and a['hash'] != b['hash']:
+        # the two replays were cut at different points of the event log: either
+        # the run is stuck in a step that the short replay never reached, or it
+        # is still making progress
+        b = exec_plan(cfg, plan, binary, timeout=long_timeout)
+        if b['sig'] == 'hang' and a['hash'] != b['hash']:
+            return ('slow', 'hang', None, 'run %d is still making progress after %ds when run alone (its event '
+                    'log keeps growing): slow, not hung' % (run, long_timeout))
     if not a['sig'] or a['sig'] != b['sig'] or a['hash'] != b['hash']:
         return ('nondeterministic', v['sig'], None,
                 'worker saw %r; fresh replays gave %r/%s and %r/%s' % (v['sig'], a['sig'], a['hash'], b['sig'], b['hash']))
@@ -449,7 +497,7 @@ def process_violation(cfg, prop, tier, seed, run, v, binary):
             raise shrinker.Budget()
         return exec_plan(cfg, p, binary)['sig'] == sig
     small = shrinker.minimise(plan, still_fails, budget, cfg.get('shrink_ints', []), cfg.get('shrink_keys'))
-    fin = exec_plan(cfg, small, binary)
+    fin = exec_plan(cfg, small, binary, timeout=long_timeout if sig == 'hang' else None)
     fin2 = exec_plan(cfg, small, binary)
     if fin['sig'] != sig or fin2['sig'] != sig or fin['hash'] != fin2['hash']:
         small, fin = plan, a   # fall back to the unminimised plan
@@ -588,22 +636,34 @@ def main(argv):
         for (binary, r), v in all_viol.items():
             hist.setdefault(v['sig'], []).append(r)
         for sig, rs in sorted(hist.items(), key=lambda kv: -len(kv[1])):
-            log('%6d  %s   (first run %d)' % (len(rs), sig, min(rs)))
+            log('%6d  %s   (runs %s%s)' % (len(rs), sig, ' '.join(str(x) for x in sorted(rs)[:12]), ' ...' if len(rs) > 12 else ''))
         log('census: %d runs, %d violating' % (len(all_results), len(all_viol)))
         return 0
     # ---- violations: one representative (lowest run) per worker-reported signature
-    by_sig = {}
+    by_sig, more_hangs = {}, []
     for (binary, r) in sorted(all_viol):
         v = all_viol[(binary, r)]
+        if v['sig'] == 'hang' and 'hang' in by_sig:
+            more_hangs.append((binary, r, v))
         by_sig.setdefault(v['sig'], (binary, r, v))
     exit_code = 0
     reported, known_hit = [], []
     nondet = []
+    slow_notes = []
     seen_final = set()
-    for sig0, (binary, r, v) in sorted(by_sig.items(), key=lambda kv: kv[1][1]):
+    todo = sorted(by_sig.items(), key=lambda kv: kv[1][1])
+    while todo:
+        sig0, (binary, r, v) = todo.pop(0)
         if len(reported) >= cfg.get('max_reported', 8):
             break
         st, sig, path, info = process_violation(cfg, prop, tier, seed, r, v, binary)
+        if st == 'slow':
+            slow_notes.append(info)
+            log('NOTE: ' + info)
+            # the next watchdog kill of the batch, if any, may be a real hang
+            if more_hangs and len(slow_notes) < 6:
+                todo.insert(0, ('hang', more_hangs.pop(0)))
+            continue
         if st == 'nondeterministic':
             nondet.append((r, sig, info))
             continue
@@ -680,6 +740,7 @@ def main(argv):
                 'stopped_by_wall_cap': capped,
                 'violations_reported': [dict(signature=s, replay=p) for s, p, _ in reported],
                 'known_findings_hit': [s for s, _ in known_hit],
+                'slow_runs_not_hung': slow_notes,
                 'known_findings_replayed': known_status,
                 'fixed_entries': [e.get('entry') for e in fixed],
                 'exhaustive': False,
